@@ -211,3 +211,42 @@ def hostile_array(A, h):
         Z[Z == 0] = -0.0          # negative zeros are zeros: no edge
         return Z
     return A
+
+
+def named_shapes(p):
+    """Hand-picked DAG shapes on p nodes (before relabelling): chains, stars, colliders sharing parents, diamonds, ladders,
+    layered and bipartite graphs, a cycle skeleton with one collider, the complete DAG.  Returns {name: masks}."""
+    def g(edges):
+        out = [0] * p
+        for a, b in edges:
+            out[a] |= 1 << b
+        return out
+    shapes = {
+        "chain": g([(i, i + 1) for i in range(p - 1)]),
+        "anti-chain": g([(i + 1, i) for i in range(p - 1)]),
+        "out-star": g([(0, i) for i in range(1, p)]),
+        "in-star": g([(i, 0) for i in range(1, p)]),
+        "zigzag": g([(i, i + 1) if i % 2 == 0 else (i + 1, i) for i in range(p - 1)]),
+        "two-colliders-sharing-parents": g([(0, 2), (1, 2), (0, 3), (1, 3), (2, 3)] + [(3, i) for i in range(4, p)]),
+        "diamonds": g([e for k in range(0, p - 3, 3) for e in ((k, k + 1), (k, k + 2), (k + 1, k + 3), (k + 2, k + 3))]),
+        "ladder": g([(i, i + 2) for i in range(p - 2)] + [(i, i + 1) for i in range(0, p - 1, 2)]),
+        "cycle-skeleton-one-collider": g([(i, i + 1) for i in range(p - 1)] + [(0, p - 1)]),
+        "layered": g([(i, j) for i in range(p // 3) for j in range(p // 3, 2 * (p // 3))] +
+                     [(j, k) for j in range(p // 3, 2 * (p // 3)) for k in range(2 * (p // 3), p)][: max(0, 14 - (p // 3) ** 2)]),
+        "bipartite": g([(i, j) for i in range(p // 2) for j in range(p // 2, p)]),
+        "complete": g([(i, j) for i in range(p) for j in range(i + 1, p)]),
+        "chain-plus-long-edge": g([(i, i + 1) for i in range(p - 1)] + [(0, p - 1), (1, p - 2)]),
+        "binary-tree": g([((i - 1) // 2, i) for i in range(1, p)]),
+        "inverted-tree": g([(i, (i - 1) // 2) for i in range(1, p)]),
+    }
+    return shapes
+
+
+def relabel(out, rng):
+    p = len(out)
+    perm = [int(v) for v in rng.permutation(p)]
+    big = [0] * p
+    for i in range(p):
+        for j in G.bits(out[i]):
+            big[perm[i]] |= 1 << perm[j]
+    return big
